@@ -137,7 +137,10 @@ def trace_clone_root(b, rv):
         elif rv.get("k") == "ref":
             if mir.fields_of(rv["p"]) == ("running",):
                 return rv["p"]["l"]
-            return None
+            if rv["p"]["p"] == ["*"]:
+                p = {"l": rv["p"]["l"], "p": []}     # a reborrow `&*r` (Arc::clone(&search.running))
+            else:
+                return None
         else:
             return None
         if p is None or not mir.is_local(p):
@@ -479,6 +482,8 @@ RULES = [("flag-writers", rule_flag_writers), ("publish-order", rule_publish_ord
          ("go-reaches-spawn", rule_go_reaches_spawn), ("no-swallow", rule_no_swallow), ("poll", rule_poll), ("legal-src", rule_legal_src)]
 # `stop` can only be honoured if the thread that reads it is never parked on anything but the input (C15.nonblocking)
 RULES += engine.premise_rules("c15", ["nonblocking"])
+# "exactly one legal bestmove": the text of the move (C14.move-text)
+RULES += engine.premise_rules("c14", ["move-text"])
 
 
 def run(tier):
